@@ -103,6 +103,13 @@ Theorem C06_adler32_generated : forall fuel adler f l, len l < M64 ->
 Proof. exact gen_adler_update. Qed.
 Print Assumptions C06_adler32_generated.
 
+(* both together: the statement of DESIGN.md Appendix A *)
+Theorem C06_adler32 : forall fuel adler f l, bytes l -> 0 <= adler < M32 -> len l < M64 ->
+  (forall j, (j < List.length l)%nat -> u8 (f (Z.of_nat j)) = nth j l 0) -> (List.length l < fuel)%nat ->
+  sc_io_adler32_update fuel adler f (len l) = Some (adler32_from adler l).
+Proof. exact gen_adler_is_spec. Qed.
+Print Assumptions C06_adler32.
+
 (* checksums of concatenated buffers chain (the writer updates block by block) *)
 Theorem C06_adler32_chunks : forall adler x y, bytes x -> bytes y -> 0 <= adler < M32 ->
   adler_update (adler_update adler x) y = adler_update adler (x ++ y).
@@ -156,7 +163,7 @@ Section Zlib.
   Hypothesis deflate_bytes : forall l d, bytes d -> bytes (deflate l d).
   Hypothesis zlib_ok : forall l d, bytes d -> inflate (deflate l d) (len d) = Some d.
 
-  Theorem C06_roundtrip_zlib : forall lvl lb d out maxsz,
+  Theorem C06_roundtrip : forall lvl lb d out maxsz,
     bytes d -> 9 + len (deflate lvl d) < M64 / 4 -> len d < M64 / 2 ->
     0 < o_esz out -> (len d) mod (o_esz out) = 0 ->
     (maxsz <= 0 \/ len d <= maxsz) ->
@@ -164,7 +171,7 @@ Section Zlib.
     sc_decode_with (zlib_unc inflate) (sc_encode_with (deflate lvl) lb d) out maxsz = Ok (len d / o_esz out, d).
   Proof. exact (decode_encode_zlib deflate inflate deflate_bytes zlib_ok). Qed.
 End Zlib.
-Print Assumptions C06_roundtrip_zlib.
+Print Assumptions C06_roundtrip.
 
 (* the build without zlib: writer, reader, sc_puff and adler32 are libsc's own code - no hypothesis *)
 Theorem C06_roundtrip_stored : forall lb d out maxsz,
